@@ -914,6 +914,11 @@ class Ref(Field):
 
         assert isinstance(referenced, Packet)
 
+        # The callable may hand us the very same packet object on each call
+        # (a literal inside chooses({...}) for example): never unpack into
+        # it, use a fresh packet of its class as the target instead.
+        referenced = referenced.__class__(_initialize_fields=False)
+
         setattr(pkt, self.field_name, referenced)
         return referenced.unpack_impl(raw, offset, **k)
 
